@@ -321,13 +321,12 @@ class DeribitWorld:
             self.instruments.append({"name": option_name(token, exp, strike, kind) + (f"x{j}" if False else ""),
                                      "kind": kind, "strike": strike, "expiry": exp})
         # de-duplicate names
-        seen = {}
+        seen = set()
         for ins in self.instruments:
-            k = ins["name"]
-            seen[k] = seen.get(k, 0) + 1
-            if seen[k] > 1:
-                ins["strike"] += step_k * (seen[k] - 1)
+            while ins["name"] in seen:  # move the strike up until the name is new (a bumped name may hit another one)
+                ins["strike"] += step_k
                 ins["name"] = option_name(token, ins["expiry"], ins["strike"], ins["kind"])
+            seen.add(ins["name"])
         rows = []
         for h in self.hours:
             under *= math.exp(rng.gauss(0, vol))
